@@ -222,7 +222,7 @@ PROPS.update({
         ],
     },
     "C12": {
-        "level_text": 'Bounded-exhaustive exploration: same matrix/background menu as C11; queries min-1, every distinct attainable score (at most 600 evenly ranked, 2400 thorough), each +1e-4, midpoints, max+1; EVERY refinement step of approximate_pvalue with g >= 1e-9 and the final pvalue() are compared with the brute-force tail using exactly the statement\'s margins (M+1)g / (M+2)g; panics (incl. assert!(converged)) and >40 refinement steps are violations. Plus `reuse`: ALL query histories of length <= 3 (4 thorough) over 11 p-value / score queries (partial and full refinements) on ONE TfmPvalue object, the last answer compared with that of a fresh object. Queries include attainable scores shifted by +0.15 and -0.0151 (off every coarse grid).',
+        "level_text": 'Bounded-exhaustive exploration: same matrix/background menu as C11; queries min-1, every distinct attainable score (at most 600 evenly ranked, 2400 thorough), each +1e-4, midpoints, max+1; EVERY refinement step of approximate_pvalue with g >= 1e-9 and the final pvalue() are compared with the brute-force tail using exactly the statement\'s margins (M+1)g / (M+2)g; panics (incl. assert!(converged)) and >40 refinement steps are violations. Plus `reuse`: ALL query histories of length <= 3 (4 thorough) over 11 p-value / score queries (partial and full refinements) on ONE TfmPvalue object, the last answer compared with that of a fresh object. Queries include attainable scores shifted by +0.15 and -0.0151 (off every coarse grid). Every matrix whose background gives the wildcard no mass is also checked as a PROTEIN matrix carrying the same score distribution (DNA columns at protein ranks 19, 2, 11, 6, all other residues background 0 with copies of cells of their row; quick tier widths <= 4): same queries, same brute-force oracle.',
         "level_note": 'Trusted: brute-force oracle; RELATIVE 1e-6 allowance on probabilities (so that tails far below 1e-6 - skewed background, p below machine epsilon - are decided too); for the final value only, the score margin has the floor 64 ulp(|s| + sum of row ranges). The statement bounds pmin only from below and pmax only from above, so single-key off-by-one mutations of the integer window are inside its slack (measured).',
         "technique": 'bounded-exhaustive enumeration of matrices x backgrounds x scores x every refinement step against a brute-force exact distribution',
         "level": "exploration", "package": "vx-pval", "profiles": ["rel", "chk"],
@@ -234,7 +234,7 @@ PROPS.update({
         ],
     },
     "C13": {
-        "level_text": 'Bounded-exhaustive exploration: same menu; p = every attainable tail probability (ranked cap as C12), each x(1-1e-7) and x(1+1e-7), geometric midpoints, 1e-9, 1e-6, .5, .999; EVERY refinement step of approximate_score with g >= 1e-9 and the final score(): P(S>=t+d) <= p and P(S>=u-d) >= p for the largest attainable u < t-d, d = (M+2)g; panics and >40 steps are violations. Plus the `reuse` histories on one TfmPvalue object (as C12).',
+        "level_text": 'Bounded-exhaustive exploration: same menu; p = every attainable tail probability (ranked cap as C12), each x(1-1e-7) and x(1+1e-7), geometric midpoints, 1e-9, 1e-6, .5, .999; EVERY refinement step of approximate_score with g >= 1e-9 and the final score(): P(S>=t+d) <= p and P(S>=u-d) >= p for the largest attainable u < t-d, d = (M+2)g; panics and >40 steps are violations. Plus the `reuse` histories on one TfmPvalue object (as C12). Every matrix whose background gives the wildcard no mass is also checked as a PROTEIN matrix carrying the same score distribution (DNA columns at protein ranks 19, 2, 11, 6, all other residues background 0 with copies of cells of their row; quick tier widths <= 4): same queries, same brute-force oracle.',
         "level_note": 'Trusted: brute-force oracle; 1e-6 allowance; floor 64 ulp on the final margin only.',
         "technique": 'bounded-exhaustive enumeration of matrices x backgrounds x p-values x every refinement step against a brute-force exact distribution',
         "level": "exploration", "package": "vx-pval", "profiles": ["rel", "chk"],
